@@ -5,11 +5,13 @@ import os
 import common
 
 B = "Sympler.Dyn."
-THEOREMS_C04 = [B + t for t in ["Bridge_pair_first", "Bridge_pair_second", "Bridge_pair_guards", "Bridge_pair_cutoff"]]
+G = ["Sympler.PairGuards.C04_guards_table", "Sympler.PairGuards.C04_guards_table_covers"]
+THEOREMS_C04 = [B + t for t in ["Bridge_pair_first", "Bridge_pair_second", "Bridge_pair_guards", "Bridge_pair_cutoff"]] + G
 THEOREMS_C05 = [B + t for t in ["Bridge_vv_step1", "Bridge_vv_step2", "Bridge_euler_step1", "Bridge_step_order"]]
 THEOREMS_C07 = [B + t for t in ["Bridge_pair_first", "Bridge_pair_second", "Bridge_pair_guards", "Bridge_pair_cutoff"]]
-THEOREMS_C10 = [B + t for t in ["Bridge_pair_guards"]]
-EXTRA = ["Props.DynBridge"]
+THEOREMS_C10 = [B + t for t in ["Bridge_pair_guards"]] + G
+EXTRA = ["Props.DynBridge", "Props.PairGuards"]
+NAME2 = "translator t_pairguards (EVERY write to a pair partner in force/, callable/, symbol/, integrator/, basic/, meter/, reflector/ with the conditions of its enclosing ifs)"
 NAME = "translator t_dyn (pair kernels of FPairVels/FPairScalar/FPairVector/PairParticleScalar/PairParticleVector with guards and cutoff test, velocity-Verlet and Euler integrator kernels, call order of Controller::integrate)"
 
 
@@ -17,6 +19,12 @@ def translate(ctx):
     try:
         import t_dyn
         common.write_if_changed(os.path.join(common.LEAN, "Sympler/Gen/DynGen.lean"), t_dyn.generate(common.REPO))
-        return ctx.oblige(NAME, True)
+        ctx.oblige(NAME, True)
     except Exception as ex:
-        return ctx.oblige(NAME, False, repr(ex))
+        ctx.oblige(NAME, False, repr(ex))
+    try:
+        import t_pairguards
+        common.write_if_changed(os.path.join(common.LEAN, "Sympler/Gen/PairGuardsGen.lean"), t_pairguards.generate(common.REPO))
+        return ctx.oblige(NAME2, True)
+    except Exception as ex:
+        return ctx.oblige(NAME2, False, repr(ex))
